@@ -2,8 +2,10 @@ package props
 
 import (
 	"errors"
+	"io"
 	"reflect"
 	"strconv"
+	"strings"
 	"time"
 
 	"verifsim/gen"
@@ -124,7 +126,7 @@ type PMsg struct{ B []byte }
 func (m *PMsg) Size() int { return len(m.B) }
 func (m *PMsg) Marshal(b []byte) error {
 	if len(b) < len(m.B) {
-		return errors.New("PMsg: short buffer")
+		return io.ErrShortBuffer
 	}
 	copy(b, m.B)
 	return nil
@@ -137,7 +139,7 @@ type PCustom struct{ S string }
 func (m *PCustom) Size() int { return len(m.S) }
 func (m *PCustom) MarshalTo(b []byte) (int, error) {
 	if len(b) < len(m.S) {
-		return 0, errors.New("PCustom: short buffer")
+		return 0, io.ErrShortBuffer
 	}
 	return copy(b, m.S), nil
 }
@@ -145,8 +147,8 @@ func (m *PCustom) Unmarshal(b []byte) error { m.S = string(b); return nil }
 
 type PWithMsgs struct {
 	A  int32             `protobuf:"zigzag32,1,opt,name=a"`
-	M  *PMsg             `protobuf:"bytes,2,opt,name=m"`
-	C  *PCustom          `protobuf:"bytes,3,opt,name=c"`
+	M  PMsg              `protobuf:"bytes,2,opt,name=m"`
+	C  PCustom           `protobuf:"bytes,3,opt,name=c"`
 	R  proto.RawMessage  `protobuf:"bytes,4,opt,name=r"`
 	MM map[int32]string  `protobuf:"bytes,5,rep,name=mm"`
 	MS map[string]PInner `protobuf:"bytes,6,rep,name=ms"`
@@ -254,7 +256,7 @@ func init() {
 		zt(gen.JSON, []ZEmb{}, "[]ZEmb"), zt(gen.JSON, map[string]any{}, "map[string]any"), zt(gen.JSON, []any{}, "[]any"),
 	}
 	zoo[gen.Proto] = []*simType{
-		zt(gen.Proto, PNode{}, "PNode"), zt(gen.Proto, PWithMsgs{}, "PWithMsgs"), zt(gen.Proto, PInlined{}, "PInlined"), zt(gen.Proto, PMaps{}, "PMaps"), zt(gen.Proto, PInner{}, "PInner"),
+		zt(gen.Proto, PNode{}, "PNode"), zt(gen.Proto, PWithMsgs{}, "PWithMsgs"), zt(gen.Proto, PInlined{}, "PInlined"), zt(gen.Proto, PMaps{}, "PMaps"), zt(gen.Proto, PInner{}, "PInner"), zt(gen.Proto, PMsg{}, "PMsg"), zt(gen.Proto, PCustom{}, "PCustom"),
 	}
 	zoo[gen.Thrift] = []*simType{
 		zt(gen.Thrift, TNode{}, "TNode"), zt(gen.Thrift, TMisc{}, "TMisc"), zt(gen.Thrift, TInner{}, "TInner"),
@@ -268,4 +270,41 @@ type simType struct {
 	rt    reflect.Type
 	name  string
 	flags string // "recursive", "mapfield", "nested"
+}
+
+func typeFlags(rt reflect.Type) string {
+	var f []string
+	seen := map[reflect.Type]bool{}
+	var walk func(t reflect.Type, d int)
+	walk = func(t reflect.Type, d int) {
+		if seen[t] || d > 8 {
+			return
+		}
+		seen[t] = true
+		switch t.Kind() {
+		case reflect.Map:
+			f = append(f, "mapfield")
+			walk(t.Elem(), d+1)
+		case reflect.Ptr, reflect.Slice, reflect.Array:
+			walk(t.Elem(), d+1)
+		case reflect.Struct:
+			for i := 0; i < t.NumField(); i++ {
+				walk(t.Field(i).Type, d+1)
+			}
+		}
+	}
+	walk(rt, 0)
+	return strings.Join(f, " ")
+}
+
+// protoArg is what to hand to proto.Marshal/Size/MarshalTo for a value of a
+// zoo or generated type: a pointer to the struct, except for types that
+// implement proto.Message or the gogo-style custom interface themselves, which
+// the library only accepts by value at top level.
+func protoArg(v reflect.Value) any {
+	t := v.Elem().Type()
+	if t == reflect.TypeOf(PMsg{}) || t == reflect.TypeOf(PCustom{}) {
+		return v.Elem().Interface()
+	}
+	return v.Interface()
 }
